@@ -59,6 +59,7 @@ func runStartFault(w *tr.Writer, seed uint64, idx int) {
 		name, index = "keepalive", 0
 	}
 	kind := rnd.PickS([]string{"emfile", "enomem"})
+	stopAfterFailedStart := rnd.Chance(50)
 
 	rec := newRecorder()
 	rec.ledgerOn = true
@@ -123,6 +124,11 @@ func runStartFault(w *tr.Writer, seed uint64, idx int) {
 				started = true
 				time.Sleep(2 * time.Millisecond)
 				err = cli.Stop()
+			} else if stopAfterFailedStart {
+				// the usual clean-up of an application (a deferred Stop) after a Start that failed: it finds a
+				// client whose pollers are closed already, and must not touch their descriptor numbers again
+				_ = cli.Stop()
+				w.Hist("startfault-stop-after-failed-start")
 			}
 		}
 		done <- err
